@@ -121,6 +121,7 @@ class Mirror(object):
         self.objs = {}      # oid -> {'vals': {name: value}, 'refs': {holder attr name: oid | None}}
         self.pairs = dict((k, set()) for k, r in enumerate(spec['rels']) if r['kind'] == 'm2m')
         self.dead = set()
+        self.dead_objs = {}  # oid -> last state of deleted objects (their keys stay reserved)
         self.fresh = set()   # objects created in the current session (not flushed yet)
 
     def copy(self):
@@ -129,6 +130,7 @@ class Mirror(object):
         m.objs = dict((oid, {'vals': dict(o['vals']), 'refs': dict(o['refs'])}) for oid, o in self.objs.items())
         m.pairs = dict((k, set(v)) for k, v in self.pairs.items())
         m.dead = set(self.dead)
+        m.dead_objs = dict(self.dead_objs)
         m.fresh = set(self.fresh)
         return m
 
@@ -198,9 +200,10 @@ class Mirror(object):
         self.objs[oid] = o
 
     def pk_taken(self, ei, pkparts):
+        # dead objects keep their key reserved: Pony's identity map still holds an object deleted in the session
         e = self.spec['ents'][ei]
-        for oid in self.alive(ei):
-            o = self.objs[oid]
+        for oid in self.alive(ei) + sorted(x for x in self.dead_objs if x[0] == ei):
+            o = self.objs.get(oid) or self.dead_objs[oid]
             same = True
             for (name, typ), part in zip(PK_PARTS[e['pk']], pkparts):
                 cur = o['refs'][name][1] if typ == 'ref' else o['vals'][name]
@@ -290,7 +293,7 @@ class Mirror(object):
                         self.objs[x]['refs'][d['name']] = None
             for k in self.pairs:
                 self.pairs[k] = set(p for p in self.pairs[k] if oid not in p)
-            del self.objs[oid]
+            self.dead_objs[oid] = self.objs.pop(oid)
             self.dead.add(oid)
             return True
         d = self.ad[oid[0]][op[2]]
